@@ -1,14 +1,41 @@
-"""./check replay <file>: re-run the input of a replay file on the implementation and show the result."""
+"""./check replay <file>: show the recorded violation, re-run its input on the implementation when it is a text, and then re-run
+the property's check with the recorded seed and tier: exit 1 if the same violation is reported again on the tree under test
+(VERIF_REPO, default /repo), exit 0 if it is not."""
+import importlib
 import json
 import impl
 
 
 def main(path):
     r = json.load(open(path))
-    print('property:', r.get('property'), '|', r.get('what'))
+    pid, what = r.get('property'), r.get('what') or ''
+    print('property:', pid, '|', what)
     text = r.get('text')
-    if text:
-        print('--- input'); print(text); print('--- implementation now gives'); print(impl.compile_text(text))
+    if isinstance(text, str) and text:
+        print('--- input'); print(text); print('--- implementation now gives')
+        try:
+            print(impl.compile_text(text))
+        except Exception as e:          # the replay of a rejected input shows the rejection
+            print('%s: %s' % (type(e).__name__, str(e)[:400]))
     else:
-        print(json.dumps(r, indent=1)[:4000])
-    return 0
+        print(json.dumps({k: v for k, v in r.items() if k not in ('log_tail',)}, indent=1)[:3000])
+    if not pid:
+        return 0
+    print('--- re-running ./check %s --tier %s with seed %s' % (pid, r.get('tier', 'quick'), r.get('seed')))
+    mod = importlib.import_module('props.%s' % pid.lower())
+    rc = mod.run(r.get('tier', 'quick'), int(r.get('seed', 20261001)))
+    if rc == 0:
+        print('REPLAY: not reproduced (the check passes)')
+        return 0
+    import os
+    import common
+    again = []
+    for f in sorted(os.listdir(common.REPLAYS)):
+        if f.startswith(pid + '_'):
+            try:
+                again.append(json.load(open(os.path.join(common.REPLAYS, f))).get('what') or '')
+            except Exception:
+                pass
+    same = [w for w in again if w[:60] == what[:60]]
+    print('REPLAY: %s' % ('reproduced' if same else 'the check fails, with other violations: %r' % [w[:100] for w in again[:3]]))
+    return 1
